@@ -169,4 +169,184 @@ theorem foldl_pred {σ α : Type} (Q : σ → Prop) (g : σ → α → σ) (hg :
   | nil => intro st h; exact h
   | cons a r ih => intro st h; exact ih _ (hg st a h)
 
+/-! ### what the LRU "remembers" -/
+
+/-- cache operations after the push of the key under observation -/
+inductive CacheOp
+  | push (k : Bytes)
+  | remove (k : Bytes)
+
+def CacheOp.key : CacheOp → Bytes
+  | .push k => k
+  | .remove k => k
+
+def Cache.apply (c : Cache) : CacheOp → Cache
+  | .push k => (c.push k).1
+  | .remove k => c.remove k
+
+def Cache.applyAll (c : Cache) (ops : List CacheOp) : Cache := ops.foldl Cache.apply c
+
+def pushedKeys : List CacheOp → List Bytes
+  | [] => []
+  | .push k :: r => k :: pushedKeys r
+  | .remove _ :: r => pushedKeys r
+
+/-- `k` sits in the list with only keys from `D` behind it (more recent than it) -/
+structure Cache.Holds (c : Cache) (k : Bytes) (D : List Bytes) : Prop where
+  ok : c.OK
+  pos : 0 < c.size
+  split : ∃ pre post, c.keys = pre ++ k :: post ∧ (∀ x ∈ post, x ∈ D)
+
+theorem Cache.holds_push (c : Cache) (k : Bytes) (D : List Bytes) (h : c.OK) (hp : 0 < c.size) :
+    (c.push k).1.Holds k D := by
+  refine ⟨Cache.ok_push c k h, by rw [Cache.push_size]; exact hp, ?_⟩
+  unfold Cache.push
+  have h0 : ¬ c.size ≤ 0 := by omega
+  simp only [h0, if_false]
+  split
+  · exact ⟨c.keys.erase k, [], rfl, fun _ hx => (by cases hx)⟩
+  · exact ⟨(if (c.keys.length : Int) ≥ c.size then c.keys.drop 1 else c.keys), [], rfl,
+      fun _ hx => (by cases hx)⟩
+
+theorem Cache.holds_has {c : Cache} {k : Bytes} {D : List Bytes} (h : c.Holds k D) : c.has k = true := by
+  obtain ⟨pre, post, hk, _⟩ := h.split
+  unfold Cache.has
+  have := h.pos
+  simp [hk]; omega
+
+theorem erase_split_pre {pre post : List Bytes} {k j : Bytes} (hj : j ∈ pre) :
+    (pre ++ k :: post).erase j = pre.erase j ++ k :: post := List.erase_append_left _ hj
+
+theorem erase_split_post {pre post : List Bytes} {k j : Bytes} (hj : j ∉ pre) (hne : j ≠ k) :
+    (pre ++ k :: post).erase j = pre ++ k :: post.erase j := by
+  rw [List.erase_append_right _ hj]
+  have : ¬ (k == j) = true := by simpa using fun h : k = j => hne h.symm
+  simp [List.erase_cons, this]
+
+/-- one further operation on another key: `k` is still held, provided the keys behind it together
+with a newly inserted one stay below the cache size -/
+theorem Cache.holds_step {c : Cache} {k : Bytes} {D : List Bytes} (h : c.Holds k D) (op : CacheOp)
+    (hne : op.key ≠ k) (hD : ∀ j, op = .push j → j ∈ D)
+    (hsmall : ∀ l : List Bytes, l.Nodup → (∀ x ∈ l, x ∈ D) → k ∉ l → (l.length : Int) < c.size) :
+    (c.apply op).Holds k D := by
+  obtain ⟨pre, post, hk, hpost⟩ := h.split
+  have hnd : c.keys.Nodup := h.ok.1
+  have hnd' : (pre ++ k :: post).Nodup := hk ▸ hnd
+  have hdisj := (List.nodup_append.1 hnd').2.2
+  have hkpost : post.Nodup := (List.nodup_cons.1 (List.nodup_append.1 hnd').2.1).2
+  have hknot : k ∉ post := (List.nodup_cons.1 (List.nodup_append.1 hnd').2.1).1
+  have h0 : ¬ c.size ≤ 0 := by have := h.pos; omega
+  cases op with
+  | remove j =>
+    have hjk : j ≠ k := hne
+    refine ⟨Cache.ok_remove c j h.ok, by show (c.remove j).size > 0; rw [Cache.remove_size]; exact h.pos, ?_⟩
+    show ∃ pre' post', (c.remove j).keys = pre' ++ k :: post' ∧ _
+    unfold Cache.remove
+    simp only [h0, if_false]
+    by_cases hjp : j ∈ pre
+    · exact ⟨pre.erase j, post, by rw [hk]; exact erase_split_pre hjp, hpost⟩
+    · exact ⟨pre, post.erase j, by rw [hk]; exact erase_split_post hjp hjk,
+        fun x hx => hpost x (List.mem_of_mem_erase hx)⟩
+  | push j =>
+    have hjk : j ≠ k := hne
+    have hjD : j ∈ D := hD j rfl
+    refine ⟨Cache.ok_push c j h.ok, by show (c.push j).1.size > 0; rw [Cache.push_size]; exact h.pos, ?_⟩
+    show ∃ pre' post', (c.push j).1.keys = pre' ++ k :: post' ∧ _
+    unfold Cache.push
+    simp only [h0, if_false]
+    by_cases hjin : j ∈ c.keys
+    · simp only [hjin, if_true]
+      by_cases hjp : j ∈ pre
+      · refine ⟨pre.erase j, post ++ [j], ?_, ?_⟩
+        · show c.keys.erase j ++ [j] = _
+          rw [hk, erase_split_pre hjp]; simp
+        · intro x hx
+          rcases List.mem_append.1 hx with hx | hx
+          · exact hpost x hx
+          · simp at hx; rw [hx]; exact hjD
+      · refine ⟨pre, post.erase j ++ [j], ?_, ?_⟩
+        · show c.keys.erase j ++ [j] = _
+          rw [hk, erase_split_post hjp hjk]; simp
+        · intro x hx
+          rcases List.mem_append.1 hx with hx | hx
+          · exact hpost x (List.mem_of_mem_erase hx)
+          · simp at hx; rw [hx]; exact hjD
+    · simp only [hjin, if_false]
+      have hjpost : j ∉ post := fun hm => hjin (by rw [hk]; simp [hm])
+      -- the keys behind k plus the new one are few
+      have hfew : ((post ++ [j]).length : Int) < c.size := by
+        apply hsmall
+        · rw [List.nodup_append]
+          refine ⟨hkpost, by simp, ?_⟩
+          intro a ha b hb
+          simp at hb; subst hb
+          intro e; subst e; exact hjpost ha
+        · intro x hx
+          rcases List.mem_append.1 hx with hx | hx
+          · exact hpost x hx
+          · simp at hx; rw [hx]; exact hjD
+        · intro hm
+          rcases List.mem_append.1 hm with hm | hm
+          · exact hknot hm
+          · simp at hm; exact hjk hm.symm
+      by_cases hfull : (c.keys.length : Int) ≥ c.size
+      · simp only [hfull, if_true]
+        -- the front entry goes; it is not k
+        cases pre with
+        | nil =>
+          rw [hk] at hfull
+          simp at hfull hfew
+          omega
+        | cons p pre' =>
+          refine ⟨pre', post ++ [j], ?_, ?_⟩
+          · show c.keys.drop 1 ++ [j] = _
+            rw [hk]; simp
+          · intro x hx
+            rcases List.mem_append.1 hx with hx | hx
+            · exact hpost x hx
+            · simp at hx; rw [hx]; exact hjD
+      · simp only [hfull, if_false]
+        refine ⟨pre, post ++ [j], ?_, ?_⟩
+        · show c.keys ++ [j] = _
+          rw [hk]; simp
+        · intro x hx
+          rcases List.mem_append.1 hx with hx | hx
+          · exact hpost x hx
+          · simp at hx; rw [hx]; exact hjD
+
+theorem Cache.apply_size (c : Cache) (op : CacheOp) : (c.apply op).size = c.size := by
+  cases op with
+  | push j => exact Cache.push_size c j
+  | remove j => exact Cache.remove_size c j
+
+theorem Cache.holds_all (k : Bytes) (D : List Bytes) : ∀ (ops : List CacheOp) (c : Cache),
+    c.Holds k D → (∀ o ∈ ops, o.key ≠ k) → (∀ j, CacheOp.push j ∈ ops → j ∈ D) →
+    (∀ l : List Bytes, l.Nodup → (∀ x ∈ l, x ∈ D) → k ∉ l → (l.length : Int) < c.size) →
+    (c.applyAll ops).Holds k D := by
+  intro ops
+  induction ops with
+  | nil => intro c h _ _ _; exact h
+  | cons o r ih =>
+    intro c h hne hD hs
+    have h1 := Cache.holds_step h o (hne o List.mem_cons_self)
+      (fun j hj => hD j (hj ▸ List.mem_cons_self)) hs
+    exact ih (c.apply o) h1 (fun o' ho' => hne o' (List.mem_cons_of_mem _ ho'))
+      (fun j hj => hD j (List.mem_cons_of_mem _ hj)) (by rw [Cache.apply_size]; exact hs)
+
+theorem mem_pushedKeys {ops : List CacheOp} {j : Bytes} (h : CacheOp.push j ∈ ops) : j ∈ pushedKeys ops := by
+  induction ops with
+  | nil => cases h
+  | cons o r ih =>
+    cases o with
+    | push k =>
+      simp only [pushedKeys]
+      rcases List.mem_cons.1 h with h | h
+      · cases h; exact List.mem_cons_self
+      · exact List.mem_cons_of_mem _ (ih h)
+    | remove k =>
+      simp only [pushedKeys]
+      rcases List.mem_cons.1 h with h | h
+      · cases h
+      · exact ih h
+
 end Tmv.Mempool
